@@ -1,8 +1,9 @@
 import Ggql.Driver.Loop
 import Ggql.Gen.Skip
+import Ggql.Gen.Locks
 open Ggql Ggql.Driver
 
 def genTables : Tables :=
-  { skip := Gen.skipTable }
+  { skip := Gen.skipTable, locks := Gen.lockTable }
 
 def main (args : List String) : IO Unit := run genTables args
